@@ -125,6 +125,8 @@ def run_shard(ctx):
             text = shared_hash_doc(rng)
         elif x < 0.35:
             text, names = colliding_hash_doc(rng)
+        elif x < 0.42:
+            text, _ = gd.gen_doc(rng, "N", keys=gd.KEYS + ["-1", "-2", "'-1'", "10"])     # negative-integer keys
         else:
             text, _ = gd.gen_doc(rng)
         try:
@@ -179,16 +181,20 @@ def run_shard(ctx):
                     "summary": "document after the read: %r" % yp.dump(data)[:200]})
                 data = yp.load(text)
             opt_ok = False
-            if exists_now:
-                if kind == "collector":
-                    opt_ok = True
-                else:
-                    ev = PS.Evaluator(segs)
-                    try:
-                        ev.run(data)
-                        opt_ok = not ev.dead_branch
-                    except (PS.Documented, PS.Abstain):
-                        opt_ok = False
+            if kind == "collector":
+                opt_ok = exists_now
+            else:
+                # whether the path "already exists" is decided by the reference evaluator, not by the
+                # library's own exists(): a lookup that wrongly misses an existing node would otherwise
+                # excuse the optional-match query that then *creates* it
+                ev = PS.Evaluator(segs)
+                try:
+                    found = ev.run(data)
+                    opt_ok = bool(found) and all(p.sure for p in found) and not ev.dead_branch
+                except (PS.Documented, PS.Abstain):
+                    opt_ok = False
+                if opt_ok and not exists_now:
+                    ctx.count("model_says_exists_library_says_not")
             if opt_ok:
                 modes.append("optional")
                 ctx.counters["optional_existing_reads"] = ctx.counters.get("optional_existing_reads", 0) + 1
